@@ -189,6 +189,25 @@ func runC07(in sx.SX) (sx.SX, string) {
 		}
 		cur = res
 	}
+	// what Convert returns (when it is not the argument itself) belongs to the caller
+	if fail == "" && len(targets) > 0 {
+		tt := variants.VariantType(sx.AsInt(targets[0]))
+		if r1, e1 := m.Convert(v, tt); e1 == nil && r1 != nil && r1 != v {
+			before := sx.Text(valSX(v))
+			o1, _ := resSX(r1, nil)
+			r1.SetAsInteger(424242)
+			if !variants.Empty.IsNull() {
+				fail = "writing into the result of Convert changed the package-level constant variants.Empty to " + sx.Text(valSX(variants.Empty))
+				variants.Empty.Clear()
+			} else if sx.Text(valSX(v)) != before {
+				fail = "writing into the result of Convert changed the argument"
+			} else if r2, e2 := m.Convert(v, tt); true {
+				if o2, _ := resSX(r2, e2); sx.Text(o2) != sx.Text(o1) {
+					fail = fmt.Sprintf("after the caller wrote into the first result, Convert to %s returns %s instead of %s", typeNames[tt], sx.Text(o2), sx.Text(o1))
+				}
+			}
+		}
+	}
 	// one manager object and one variant object that live through the whole run: the variant is given the value in
 	// place and converted by the long-lived manager - the outcome may not depend on what either did before
 	if fail == "" && len(targets) > 0 {
